@@ -8,6 +8,25 @@ CLAIMED = {
    text="Proof (Lean 4): C11_map proves, for every valid configuration of 0002/0003/0004/0006/0007, every digest of the right length and every Unicode id, that the model of map_object_id returns exactly the path (or refusal) the extension document prescribes; C11_cfg proves validate() accepts exactly the documented configurations. The model is tied to layout.rs by a differential run through StorageLayout::new/map_object_id; the independent spec functions are also evaluated against the implementation as oracle. Partial for 0006/0007 with characters whose lower-casing is not 1:1/length-preserving (known finding C11-K1).",
    note="Trusted: Lean kernel + propext/Classical.choice/Quot.sound; hand-written model validated by correspondence (not verified code); digest of the id via Python hashlib; Unicode case mapping as model parameter (table generated from Python, validated against Rust by the run); serde_json config parsing exercised only.",
    technique="Lean 4 theorem (model = spec) + differential correspondence model/implementation", design="§5-C11"),
+ "C14": dict(
+   text="Proof (Lean 4): C14_next_* prove that VersionNum::next yields exactly number+1 with the same width, never panics for any width, refuses past 10^(w-1)-1 resp. u32::MAX; C14_stale_refused / C14_failed_commit_main_unchanged prove that a commit whose staged head is not main head+1 fails and leaves the main repository unchanged (for every repository state, so for every interleaving of clients sharing the storage root); C14_commit_next / C14_earlier_versions_kept prove a successful commit installs exactly the next version and keeps all earlier ones. Tied to the code by a differential history run (two clients with separate staging roots); the implementation-level oracle watches head numbers, padding and the main tree around every commit. Residue: the call-granularity race of two simultaneous installs (rename atomicity) is assumed, not modelled.",
+   note="Trusted: Lean kernel + 3 standard axioms; hand-written model of repo.rs/fs.rs commit path validated by correspondence; POSIX rename semantics; Python oracles.",
+   technique="Lean 4 theorems over the commit state machine + differential history correspondence", design="§5-C14"),
+ "C08": dict(
+   text="Proof (Lean 4): C08_staging_preserves_main (every staging operation, whatever its arguments or outcome, leaves Repo.main unchanged), C08_other_objects (an operation on one id never changes the committed or staged form of another id), C08_reset_all_traceless, C08_purge_exact, C08_reads_ignore_staging — all over the step function of the repository state machine. Tied by differential history runs with three objects; the oracle snapshots every byte of the storage root and of the other objects' staged directories around each operation and compares read answers before/after staging.",
+   note="Trusted: Lean kernel + 3 standard axioms; model abstracts the directory tree to per-object inventory+content files (the byte-level claim about the tree is checked by the oracle, not proved); Python oracles.",
+   technique="Lean 4 frame theorems over the state machine + differential history correspondence", design="§5-C08"),
+ "C09": dict(
+   text="Proof (Lean 4), partial: C09_add_keeps_no_clash / C09_file_is_not_dir (a logical path is never file and directory), C09_stage_file_view / C09_stage_file_refused (cp of one accepted file = view[lp:=digest], refused exactly on a clash), C09_remove_absent (rm semantics). The history-wide invariant 'every staged path is readable' is decided by the correspondence + oracle (cat -S of every staged path after every operation), not yet by a theorem. Five genuine defects found this way were repaired (known-findings.json).",
+   note="Trusted: Lean kernel + 3 standard axioms; hand-written model validated by correspondence; digest = content identification; Python oracles.",
+   technique="Lean 4 theorems on the staging primitives + differential history correspondence", design="§5-C09"),
+ "C02": dict(
+   text="Proof (Lean 4), partial: C02_staging_never_changes_reads and C02_other_objects_never_change_reads prove the 'forever' half for every staging operation and for every operation on another object; that a commit keeps the reads of earlier versions is proved at inventory level (C14_earlier_versions_kept) and checked byte-wise by the oracle, which re-reads every recorded (object, version, path) after every later operation.",
+   note="Trusted: as C09.", technique="Lean 4 frame theorems + differential history correspondence with re-read oracle", design="§5-C02"),
+ "C01": dict(
+   text="Proof (Lean 4), partial: C01_no_orphans / C01_orphan_removal_keeps_listed / C01_dedup_keeps_* prove the commit-preparation facts (no stray content file survives, dedup only drops entries of the new version the choice does not keep). Validity of every reachable repository is decided by the correspondence plus an independent OCFL validator (vlib/ocflcheck.py, written from the spec text) run on the real tree after every operation, including the strict clauses and the one-new-file-per-digest clause.",
+   note="Trusted: as C09; vlib/ocflcheck.py is my reading of OCFL 1.0/1.1 (cross-checked against the official fixtures: all valid/warn fixtures pass, 48/56 error fixtures flagged).",
+   technique="Lean 4 theorems on commit preparation + independent validator on every reachable tree", design="§5-C01"),
 }
 NOT_YET = "not claimed yet: model/theorems for this property are still under construction in this round (see DESIGN.md §11 order of work)"
 checks = []
